@@ -1,0 +1,20 @@
+//go:build verif
+
+// Contracts checked by /verif/gowp. This file contains comments only and is compiled only
+// with -tags verif.
+
+package signature
+
+// C15 (signature gate): the Verified condition is set True only after the validator accepted
+// the image in this reconcile, or when no cosign verification configuration applies to it.
+
+//@ func (*signature.Reconciler).Reconcile
+//@ props C15
+//@ ghost validated bool = false
+//@ let $vc = result 1 (xpkg.ConfigStore).ImageVerificationConfigFor
+//@ site (signature.Validator).Validate(_, _, _, $cfg, $s...)
+//@   assert [C15:validates-with-the-matching-config] $cfg == $vc
+//@   update validated = err == nil
+//@ site *.SetConditions(_, $cs...)
+//@   assert [C15:verified-true-only-when-validated-or-no-config] forall i :: 0 <= i && i < len($cs) && $cs[i].Type == "Verified" && $cs[i].Status == "True" ==>
+//@        (validated || $vc == nil || $vc.Cosign == nil)
